@@ -20,7 +20,7 @@ import signal
 CALL_TIMEOUT = int(os.environ.get('VERIF_CALL_TIMEOUT', '300' if os.environ.get('VERIF_TIER_RUNNING') == 'quick' else '1500'))
 
 
-MAX_CONCEPTS = 60000     # no context of the corpus has more than a few thousand concepts
+MAX_CONCEPTS = 400000     # the largest lattice of the corpus has 65 537 concepts
 
 
 class ResultTooLarge(Exception):
